@@ -1,4 +1,5 @@
 import VibeProof.Model.Agg
+import VibeProof.Generated.Consts
 import Std
 /-
 C07 — aggregates and grouping follow their SQL definitions on every input.
@@ -586,6 +587,45 @@ theorem C07_group_sizes (key : α → κ) (rows : List α) : total (groupRows ke
   rw [groupRows, total_fold]; simp [total]
 
 end Grouping
+
+/-! ### AST-rebuilding passes preserve aggregates -/
+
+/-- the subquery-rewrite traversal changes nothing but the subqueries: every aggregate node keeps
+its function, its DISTINCT flag and its argument, in place -/
+theorem C07_rewrite_preserves_expression (rw : Nat → Nat) (e : QExpr) :
+    eraseSubs (rewriteAt rw e) = eraseSubs e := by
+  induction e with
+  | leaf t => rfl
+  | agg f d a ih => simp [rewriteAt, eraseSubs, ih]
+  | aggStar => rfl
+  | un op a ih => simp [rewriteAt, eraseSubs, ih]
+  | bin op a b iha ihb => simp [rewriteAt, eraseSubs, iha, ihb]
+  | inSub a sub neg ih => simp [rewriteAt, eraseSubs, ih]
+  | existsSub sub neg => rfl
+  | scalarSub sub => rfl
+
+/-- in particular the list of aggregates (function, DISTINCT) of every select item, WHERE and HAVING
+expression is unchanged -/
+theorem C07_rewrite_preserves_aggregates (rw : Nat → Nat) (e : QExpr) :
+    aggNodes (rewriteAt rw e) = aggNodes e := by
+  induction e with
+  | leaf t => rfl
+  | agg f d a ih => simp [rewriteAt, aggNodes, ih]
+  | aggStar => rfl
+  | un op a ih => simp [rewriteAt, aggNodes, ih]
+  | bin op a b iha ihb => simp [rewriteAt, aggNodes, iha, ihb]
+  | inSub a sub neg ih => simp [rewriteAt, aggNodes, ih]
+  | existsSub sub neg => rfl
+  | scalarSub sub => rfl
+
+/-- the arm of `rewrite_expression_at` that rebuilds an aggregate node, as extracted from the source
+on this run: it binds `name`, `distinct`, `args` and initialises the new node's `name` with
+`name.clone()` and its `distinct` with `*distinct` (a constant there would drop or force DISTINCT) -/
+theorem C07_rewrite_arm_const :
+    VibeProof.Generated.c07RewriteAggPatterns = [["name", "distinct", "args"]] ∧
+    (VibeProof.Generated.c07RewriteAggFields.map (fun fs => (fs.lookup "name", fs.lookup "distinct")))
+      = [(some "name.clone()", some "*distinct")] := by
+  decide
 
 /-- NULL keys form one group: three rows with keys NULL, 1, NULL give two groups -/
 example : (groupRows (fun r : Row => cell r 0) [[.null, .int 1], [.int 1, .int 2], [.null, .int 3]]).length = 2 := by decide
